@@ -28,9 +28,14 @@ def outcome_st(outcomes=None, p_pass=0.6):
 
 @st.composite
 def step_st(draw, outcomes=None, cols=None, with_async=True, with_cleanup=False, first=False,
-            inherited=False):
+            inherited=False, typed=False):
     kws = STEP_KW if (not first or inherited) else ["Given", "When", "Then", "*"]
     step = {"kw": draw(st.sampled_from(kws))}
+    if typed and draw(st.integers(0, 5)) == 0:
+        # one text, bound per step type (program.PHRASE["typed"]); shared uids T0 / T1
+        step["o"] = "typed"
+        step["tk"] = draw(st.integers(0, 1))
+        return step
     if cols and draw(st.integers(0, 2)) == 0:
         step["o"] = u"<%s>" % draw(st.sampled_from(cols))
     else:
